@@ -233,7 +233,8 @@ impl Prop for C19 {
             }
             12..=15 => c.truncate = Some(rng.below(len + 1)),
             _ => {
-                c.corrupt = Some(match rng.below(4) {
+                c.corrupt = Some(match rng.below(5) {
+                    4 => QCorrupt::IndexZero(rng.below(64) as u32),
                     3 => QCorrupt::CountBeyondFile(rng.below(64) as u32, rng.below(4) as u8),
                     0 => QCorrupt::TypeCode(rng.below(3) as u8),
                     1 => QCorrupt::Count(rng.below(64) as u32),
@@ -262,8 +263,8 @@ impl Prop for C19 {
         for i in 0..m {
             let gs = crate::rng::mix(&[seed, 0xC19C, i]) | 1;
             let c = self.base_case(&mut Rng::new(gs));
-            let (counts, entry_counts, values) = c.model.render(&c.layout, None).kinds;
-            plan.push(((3 + counts + values + 4 * entry_counts) as u64, gs));
+            let (counts, entry_counts, values, indices) = c.model.render(&c.layout, None).kinds;
+            plan.push(((3 + counts + values + 4 * entry_counts + indices) as u64, gs));
         }
         plan
     }
@@ -273,17 +274,19 @@ impl Prop for C19 {
             c.truncate = Some(k);
             return c;
         }
-        let (counts, _entry_counts, values) = c.model.render(&c.layout, None).kinds;
-        let (counts, values) = (counts as u64, values as u64);
+        let (counts, entry_counts, values, _indices) = c.model.render(&c.layout, None).kinds;
+        let (counts, values, entry_counts) = (counts as u64, values as u64, entry_counts as u64);
         c.corrupt = Some(if k < 3 {
             QCorrupt::TypeCode(k as u8)
         } else if k < 3 + counts {
             QCorrupt::Count((k - 3) as u32)
         } else if k < 3 + counts + values {
             QCorrupt::Number((k - 3 - counts) as u32)
-        } else {
+        } else if k < 3 + counts + values + 4 * entry_counts {
             let j = k - 3 - counts - values;
             QCorrupt::CountBeyondFile((j / 4) as u32, (j % 4) as u8)
+        } else {
+            QCorrupt::IndexZero((k - 3 - counts - values - 4 * entry_counts) as u32)
         });
         c
     }
@@ -294,6 +297,8 @@ impl Prop for C19 {
 
     fn exec(&self, case: &Case, x: &mut Exec) {
         let r = case.model.render(&case.layout, case.corrupt.as_ref());
+        // a model without entry lines has no index to corrupt: the file is then well-formed
+        let corrupted = case.corrupt.is_some() && !(matches!(case.corrupt, Some(QCorrupt::IndexZero(_))) && r.corrupt_line.is_none());
         let mut bytes = r.text.clone().into_bytes();
         let full_len = bytes.len();
         if let Some(k) = case.truncate {
@@ -355,7 +360,7 @@ impl Prop for C19 {
         let res = match res {
             Err(p) => {
                 x.api("load_file", "panic");
-                let class = if case.corrupt.is_some() {
+                let class = if corrupted {
                     "C19:malformed-panic"
                 } else if cut_before_last_required == Some(true) {
                     "C19:truncation-panic"
@@ -400,7 +405,7 @@ impl Prop for C19 {
             }
             Ok(inst) => {
                 x.api("load_file", "Ok");
-                if case.corrupt.is_some() {
+                if corrupted {
                     x.violate("C19:malformed-accepted", format!("load_file returned Ok for a file with the corruption {:?}", case.corrupt));
                     return;
                 }
@@ -502,13 +507,13 @@ impl Prop for C19 {
     }
 
     fn rule(&self) -> String {
-        "one run = (abstract QP with <=5 variables and <=4 constraints for a random type code from {L,D,C,Q}x{C,B,M,I,G}x{N,B,L,D,C,Q}: lower-triangle entries incl. diagonal, default and non-default b0, constant, infinity value with bounds at/above/below it, two-sided/one-sided sides, names, starting points; layout: trailing text, comment and blank lines, tab/blank separators, number styles, CRLF, trailing lines, word case; entry: qplib::load_file on the simulated disk or QplibFile::from_reader on a simulated stream; schedule: chunking; faults: EINTR, short reads, EIO at byte k / call j, open failure; truncation at byte k; one-token corruption of a type-code letter, a count or a number; an entry count replaced by one far beyond the file: 10^9, 10^12, 2^62, 2^64-1). Enumerated part: truncation at every byte of N files; every one-token corruption (each type-code letter, count, number; each entry count replaced by each of four counts beyond the file) of M files. distinct = distinct event-log hash; every run is non-trivial (>=1 variable)".into()
+        "one run = (abstract QP with <=5 variables and <=4 constraints for a random type code from {L,D,C,Q}x{C,B,M,I,G}x{N,B,L,D,C,Q}: lower-triangle entries incl. diagonal, default and non-default b0, constant, infinity value with bounds at/above/below it, two-sided/one-sided sides, names, starting points; layout: trailing text, comment and blank lines, tab/blank separators, number styles, CRLF, trailing lines, word case; entry: qplib::load_file on the simulated disk or QplibFile::from_reader on a simulated stream; schedule: chunking; faults: EINTR, short reads, EIO at byte k / call j, open failure; truncation at byte k; one-token corruption of a type-code letter, a count or a number; an entry count replaced by one far beyond the file: 10^9, 10^12, 2^62, 2^64-1; a 1-based index replaced by 0). Enumerated part: truncation at every byte of N files; every one-token corruption (each type-code letter, count, number; each entry count replaced by each of four counts beyond the file; each 1-based index replaced by 0) of M files. distinct = distinct event-log hash; every run is non-trivial (>=1 variable)".into()
     }
     fn assumptions(&self) -> Vec<String> {
         vec![
             "tokens are separated by single blanks or tabs and entry lines do not start with a blank (the loader splits on each blank; whether runs of blanks are well-formed QPLIB is not settled by the statement)".into(),
             "constraints are compared as a multiset of '<= 0' polynomials (the statement fixes neither their IDs nor their names); variables by index".into(),
-            "an index token that parses but is out of range (0, or beyond the declared count) is not among the statement's malformed inputs and is not generated".into(),
+            "an index token beyond the declared count is not among the statement's malformed inputs and is not generated (index 0 is: a 1-based index cannot be 0)".into(),
             "coefficients are dyadic so that 1/2 x'Qx is exact".into(),
         ]
     }
